@@ -319,7 +319,7 @@ def run_inversion(ctx, i):
     if not ctx.begin("inv:%d" % i):
         return
     case = gen_aa.imaging_case(aa, rng, kshapes=(1, 3), max_unmasked=30, noise_scale_range=(1e-7, 1e4))
-    objs, desc = gen_aa.linear_objects(aa, rng, case, allow_unregularized=bool(rng.random() < 0.4))
+    objs, desc = gen_aa.linear_objects(aa, rng, case, allow_unregularized=bool(rng.random() < 0.4), overrides=True)
     from harness.props.c04 import reference
     B, _, _, _ = reference(case, objs, 0.0)
     sizes = [int(np.asarray(o.mapping_matrix).shape[1]) for o in objs]
